@@ -9,9 +9,28 @@ def more_empties(w, rng):
     pass
 
 
+def stale_export(w, rng):
+    """The only correct copy of one file sits INSIDE the export directory at a place that is not the
+    export location of any loaded torrent (the sub-tree of a torrent exported earlier and not loaded
+    now, or a stray file), and the export directory is - or lies below - a scan directory."""
+    cands = [(t, f) for t in w.torrents for f in t.files if not f.pad and f.length > 0]
+    if not cands:
+        return
+    t, f = rng.choice(cands)
+    w.remove_files(lambda rel, data: data == f.content)
+    where = rng.choice([(b"0123456789abcdef0123456789abcdef01234567", b"Data", b"old", b"copy.bin"), (b"stray.bin",), (b"tmp", b"x", b"copy")])
+    rel = tuple(w.export) + where
+    for i in range(len(w.export) + 1, len(rel)):
+        if rel[:i] not in w.files:
+            w.put_dir(rel[:i])
+    w.put_file(rel, f.content)
+    w.scans = rng.choice([[tuple(w.export)], [()], list(w.scans) + [tuple(w.export)]])
+    w.resize = False
+
+
 correspondence, search, replay, ASSUMPTIONS = runbase.make(
     "C02", [oracles.c02],
-    [("std", 200, 2000, {}, None), ("empties", 100, 1000, {"empties": True}, None)],
-    "generated worlds with 0-4 candidates per file and the correct one in every position, renamed/moved files, hard-linked duplicates, other torrents' export files as candidates, padding taken as zeros, empty files first/middle/last; availability computed from the initial snapshot by an independent oracle vs the export tree afterwards; every run replayed against the model",
+    [("std", 170, 1700, {}, None), ("empties", 80, 900, {"empties": True}, None), ("stale", 50, 400, {}, stale_export)],
+    "generated worlds with 0-4 candidates per file and the correct one in every position, renamed/moved files, hard-linked duplicates, other torrents' export files as candidates, data that lives only inside the export directory outside every loaded torrent's export location (scan directory = export directory or above it), padding taken as zeros, empty files first/middle/last; availability computed from the initial snapshot by an independent oracle vs the export tree afterwards; every run replayed against the model",
     "the run is a behaviour of the model (index registration, ranking, pruning, exhaustive combination search, writer) - trace validation; completeness lemmas of the search on the model",
     ["hypotheses of the statement: no I/O fault during the run, witnesses stay in place (scan files are never written: C03; own export files only receive correct bytes: C01)"])
